@@ -42,7 +42,8 @@ func init() {
 	evidenceInfo["C14"] = evInfo{
 		rule: "one evaluation = one include-heavy project built on the sim-disk; the access log (every mediated file-system call: op, raw path, result, bytes served) is checked against an independent reference model of INCLUDE resolution " +
 			"(refinement: the log must be a prefix of the model's predicted stat/read sequence; refused parameters => no access may follow; cycle => no third nested instance; catalog outcome only if every predicted access happened) " +
-			"plus a model-independent safety clause on every access (below the project directory, no '..' segment, no decoy, only stat/read). " + faults +
+			"plus a model-independent safety clause on every access (below the project directory, no '..' segment, no decoy, only stat/read). " +
+			"Phase 'alphabet' first tries every parameter string over 9 tokens (a . / \\ .. d b.jst \\x01 \\xff) up to length 3 (quick) / 5 (thorough) as the parameter of one INCLUDE in a fixed layout. " + faults +
 			"non-trivial = the model walked at least one INCLUDE; distinct = distinct (sequence of (op, project-relative path, result) in the access log, outcome class) tuples",
 		components: stdComponents,
 		assumptions: []string{
